@@ -112,6 +112,13 @@ Fixpoint top_senv (defs : list (string * tm)) (r : senv) : senv :=
   end.
 
 (* Full evaluation: force every field, last field first (as %force% does). *)
+Fixpoint force_fields (g : tm -> res data) (fs : list (string * tm)) : res (list (string * data)) :=
+  match fs with
+  | [] => Val []
+  | (f, ef) :: fs' =>
+      bind (force_fields g fs') (fun ds => bind (g ef) (fun dv => Val ((f, dv) :: ds)))
+  end.
+
 Fixpoint sforce (n : nat) (v : sval) : res data :=
   match n with
   | 0 => OOF
@@ -121,20 +128,16 @@ Fixpoint sforce (n : nat) (v : sval) : res data :=
       | VBool b => Val (DBool b)
       | VClo _ _ _ => Val DFun
       | VRec defs rr =>
-          bind ((fix fields (fs : list (string * tm)) : res (list (string * data)) :=
-                   match fs with
-                   | [] => Val []
-                   | (f, ef) :: fs' =>
-                       bind (fields fs') (fun ds =>
-                         bind (bind (seval n ef (ERec defs rr)) (sforce n)) (fun dv =>
-                           Val ((f, dv) :: ds)))
-                   end) defs)
+          bind (force_fields (fun ef => bind (seval n ef (ERec defs rr)) (sforce n)) defs)
                (fun ds => Val (DRec ds))
       end
   end.
 
+(* evaluate a closure fully *)
+Definition sfull (n : nat) (c : sclos) : res data := bind (seval n (fst c) (snd c)) (sforce n).
+
 Definition spec_run_full (n : nat) (defs : list (string * tm)) (e : tm) : res data :=
-  bind (seval n (chain defs e) ENil) (sforce n).
+  sfull n (chain defs e, ENil).
 
 (* `:query x.p1...pn` stand-alone: evaluate x, then follow the path. *)
 Fixpoint squery (n : nat) (c : sclos) (path : list string) : res sval :=
@@ -151,3 +154,8 @@ Fixpoint squery (n : nat) (c : sclos) (path : list string) : res sval :=
         | _ => Err EQueryNonRecord
         end
     end).
+
+(* `:query x.p1...pn` on the stand-alone program `let x1 = e1 in ... in x` *)
+Definition spec_run_query (n : nat) (defs : list (string * tm)) (x : string) (path : list string)
+  : res sval :=
+  squery n (chain defs (Var x), ENil) path.
